@@ -127,7 +127,9 @@ func VC04_Invite() {
 		method = rt.Str("xmethod", "[A-Z]", 1, L)
 	}
 	before := counts(w)
-	ok := w.deliver(c04Request(method, d, rt.Bool("from-callee"), true, ""), "10.0.2.2", 5060, true)
+	// headers the proxy looks at elsewhere must not loosen the pin for the request carrying them
+	extra := []string{"", "Subscription-State: terminated\r\n", "Subscription-State: terminated;reason=noresource\r\n", "Expires: 0\r\n"}[rt.Choice("extra-header", 4)]
+	ok := w.deliver(c04Request(method, d, rt.Bool("from-callee"), true, extra), "10.0.2.2", 5060, true)
 	rt.Assert(ok, "in-dialog request decodes")
 	got, n := newSends(w, before)
 	rt.Assert(n == 1, "the in-dialog request is delivered exactly once")
@@ -197,7 +199,8 @@ func VC04_Subscribe() {
 	rt.Assert(w.deliver(resp, "10.0.2.2", 5060, false), "response decodes")
 	disturb(w, b, L)
 	before := counts(w)
-	state := []string{"", "Subscription-State: active\r\n", "Subscription-State: active;expires=60\r\n"}[rt.Choice("state", 3)]
+	// the NOTIFY that ends the subscription is still a request of the dialog
+	state := []string{"", "Subscription-State: active\r\n", "Subscription-State: active;expires=60\r\n", "Subscription-State: terminated\r\n", "Subscription-State: terminated;reason=timeout\r\n"}[rt.Choice("state", 5)]
 	ok := w.deliver(c04Request("NOTIFY", d, false, true, "Event: presence\r\n"+state), "10.0.2.2", 5060, true)
 	rt.Assert(ok, "NOTIFY decodes")
 	got, n := newSends(w, before)
